@@ -255,6 +255,17 @@ def m_drain_collect(I, m, argv, fr, dest, c):
     return NotImplemented
 
 
+def m_drain_vec(I, m, argv, fr, dest, c):
+    """Vec<T>::drain(..) for non-byte vectors: yields the elements by value and empties the vector"""
+    v = deref1(argv[0])
+    if not isinstance(v, VecV):
+        return NotImplemented
+    it = IterV(list(v.items))
+    it.by_value = True
+    del v.items[:]
+    return it
+
+
 def m_enumerate(I, m, argv, fr, dest, c):
     return EnumIterV(argv[0])
 
@@ -581,7 +592,9 @@ def container_models():
         (R(r"^VecDeque::<.*>::new$"), m_deque_new),
         (R(r"^VecDeque::<.*>::push_back$"), m_deque_push_back),
         (R(r"^VecDeque::<.*>::pop_front$"), m_deque_pop_front),
-        (R(r"^core::slice::<impl \[.*\]>::iter$"), m_slice_iter),
+        (R(r"^core::slice::<impl \[.*\]>::iter(?:_mut)?$"), m_slice_iter),
+        (R(r"^Vec::<(?!u8>).*>::drain::<(?:std::ops::)?RangeFull>$"), m_drain_vec),
+        (R(r"^VecDeque::<.*>::reserve$"), m_vec_reserve),
         (R(r"^<Vec<.*> as IntoIterator>::into_iter$"), m_vec_into_iter),
         (R(r"^Option::<.*>::as_mut$"), m_option_as_mut),
         (R(r"^<T as PartialOrd>::(?P<m>gt|lt|ge|le)$|^<&*(?P<ty>f64|f32|i64|i32|u64|usize|u8|u16|u32) as PartialOrd(?:<.*>)?>::(?P<m2>gt|lt|ge|le)$"), m_partial_ord),
